@@ -262,9 +262,16 @@ def fileParts (v : Variant) (c : ClientCfg) (files : List FileUp) : List FilePar
 def multipartFields (st : ReqState) : List (Str × Str) :=
   st.ordered ++ st.form.flatMap fun e => e.2.map fun v => (e.1, v)
 
+/-- A payload-forbidden method clears `marshalBody`, `Body` and `GetBody` — but not
+`unReplayableBody`: a `SetBody(io.Reader)` body is never sent, yet the request stays flagged (`Do`
+refuses it up front, the loop does not retry it). -/
+def BodySrc.forbidden : BodySrc → BodySrc
+  | .reader b c => .reader b c
+  | _ => .none
+
 /-- parseRequestBody. -/
 def parseBody (v : Variant) (c : ClientCfg) (ra : Nat) (st : ReqState) : ReqState × WBody :=
-  if payloadForbid c st.method then ({ st with body := .none }, .none)
+  if payloadForbid c st.method then ({ st with body := st.body.forbidden }, .none)
   else
     -- client-level form data is merged first (once), also for multipart requests (/repo c422765)
     let form := if nonEmpty c.form && (!v.formOnce || ra == 0) then addAll st.form c.form else st.form
